@@ -451,6 +451,27 @@ def rule_r4(ctx, an: Anchors) -> None:
     if not bad:
         rep.hold("C03.R4", an.ctx_method("add_resource"), None, f"none of the {sites} write sites of the two tables removes an entry or rebinds the table outside Context.__init__")
     rep.floor("C03.R4", sites, 6)
+    # what is registered is immutable from the outside: the `types` kept in the stored record
+    # (they decide under which pairs a generated resource is bound later) are the method's own
+    # tuple, never the caller's sequence
+    from .common import find_assign_sources
+
+    for fname, cls in (("add_resource", an.container_class), ("add_resource_factory", an.factory_class)):
+        f = an.ctx_method(fname)
+        fields = an.dataclass_fields(cls)
+        if "types" not in fields:
+            continue
+        idx = fields.index("types")
+        for call, c in a.func_calls(f):
+            if c.kind == "class" and c.cls is cls:
+                arg = call.args[idx] if len(call.args) > idx else next((k.value for k in call.keywords if k.arg == "types"), None)
+                if arg is None:
+                    continue
+                vals = [arg]
+                if isinstance(arg, ast.Name):
+                    vals = find_assign_sources(f, arg.id) or [arg]
+                borrowed = [v for v in vals if (isinstance(v, ast.Name) and v.id in f.params) or isinstance(v, ast.Attribute)]
+                rep.check("C03.R4", not borrowed, f, call, f"{fname} keeps its own tuple of types in the stored record", f"{fname} stores the caller's `{ast.unparse(borrowed[0]) if borrowed else ''}` object in the registered record: mutating that list afterwards changes under which (type, name) pairs the resource is found / generated, so repeated lookups of a pair no longer return the same object")
 
 
 def generation_windows(ctx, an: Anchors) -> list:
